@@ -89,12 +89,12 @@ def concs(n, rnd, dask_ok=True):
 
 
 def ident(n, nchan, extra):
-    """Identifier array: value at (i, c, e...) = i*1000 + c*10 + e_flat (exact in float32)."""
+    """Identifier array: value at (i, c, e...) = i*10000 + c*100 + e_flat (exact in float32 for i < 1600)."""
     shape = (n,) + ((nchan,) if nchan else ()) + tuple(extra)
-    a = np.arange(n, dtype=np.float64).reshape((n,) + (1,) * (len(shape) - 1)) * 1000.0
+    a = np.arange(n, dtype=np.float64).reshape((n,) + (1,) * (len(shape) - 1)) * 10000.0
     a = np.broadcast_to(a, shape).copy()
     if nchan:
-        a += (np.arange(nchan) * 10.0).reshape((1, nchan) + (1,) * (len(shape) - 2))
+        a += (np.arange(nchan) * 100.0).reshape((1, nchan) + (1,) * (len(shape) - 2))
     if len(shape) > (2 if nchan else 1):
         ex = shape[(2 if nchan else 1):]
         a += np.arange(int(np.prod(ex)), dtype=np.float64).reshape((1,) * (2 if nchan else 1) + ex)
@@ -174,8 +174,6 @@ def contract(s):
                 bad.append(what + " not scalar")
             elif positive and not (v.value > 0):
                 bad.append(what + " not positive")
-            elif not np.isfinite(v.value):
-                bad.append(what + " not finite")
         except Exception as e:  # noqa
             bad.append(what + " not a frequency Quantity: %r" % (q,))
     freq_scalar(s.sample_rate, True, "sample_rate")
@@ -195,7 +193,7 @@ def contract(s):
             bad.append("nchan 0")
     if name in ("BasebandSignal", "DualPolarizationSignal"):
         try:
-            if hz(s.chan_bw) != hz(s.sample_rate):
+            if float(s.chan_bw.to_value(u.Hz)) != float(s.sample_rate.to_value(u.Hz)):
                 bad.append("baseband chan_bw %r != sample_rate %r" % (s.chan_bw, s.sample_rate))
         except Exception as e:  # noqa
             bad.append("baseband chan_bw compare failed: %r" % (e,))
